@@ -53,7 +53,51 @@ def _guard(ctx, sig, case, what, fn):
     return False, None
 
 
+NOMINAL_SHIFTS = [{"months": 1}, {"months": -1}, {"years": 1}, {"months": 13, "days": 1}]
+
+
+def check_nominal_shift(ctx, kind, c, desc, sdesc):
+    """r + d for a month/year d: same repetitions and interval, the given anchor moved by d (as TimePoint arithmetic
+    moves it - that is C05's subject), either operand order, subtraction as addition of the negation."""
+    case = lambda: {"kind": "shift", "mode": kind, "r": desc, "shift": sdesc}  # noqa: E731
+    fmt, n, ddesc = desc["fmt"], desc["n"], desc["dur"]
+    single = n == 1 or recur.is_zero(ddesc)
+    sig = {"fmt": fmt, "single": single, "nominal": recur.is_nominal(ddesc), "bounded": n is not None, "nominal_shift": True}
+    try:
+        r, a, d, second = recur.build(impl, desc)
+    except BaseException:
+        ctx.count("not_buildable(C12's business)")
+        return
+    sh = impl.build_duration(sdesc)
+    ok, s = _guard(ctx, sig, case, "r + d", lambda: r + sh)
+    if not ok:
+        return
+    ctx.traces += 1
+    o0, o1 = _obs(c, r), _obs(c, s)
+    if o1[0] != o0[0]:
+        ctx.violation("shift_keeps_repetitions", sig, case, o0[0], o1[0])
+    if o1[3] != o0[3]:
+        ctx.violation("shift_keeps_interval", sig, case, str(o0[3]), str(o1[3]))
+    given0 = r.end_point if (fmt == 4 and not single) else r.start_point
+    given1 = s.end_point if (fmt == 4 and not single) else s.start_point
+    try:
+        want = given0 + sh
+        if given1 is None or not (given1 == want) or impl.alpha_fast(given1, c)[7] != impl.alpha_fast(want, c)[7]:
+            ctx.violation("shift_anchor", dict(sig, which="given"), case, impl.sstr(want),
+                          None if given1 is None else impl.sstr(given1))
+    except Exception as ex:
+        ctx.violation("total", dict(sig, exc=type(ex).__name__, q="anchor + d"), case, "anchor + d works", repr(ex))
+    ok, s2 = _guard(ctx, sig, case, "d + r", lambda: sh + r)
+    if ok and not (s2 == s and _obs(c, s2) == o1):
+        ctx.violation("shift_either_order", sig, case, impl.sstr(s), impl.sstr(s2))
+    ok, s3 = _guard(ctx, sig, case, "r - (-d)", lambda: r - (-1 * sh))
+    if ok and not (s3 == s and _obs(c, s3) == o1):
+        ctx.violation("shift_sub_is_add_neg", sig, case, impl.sstr(s), impl.sstr(s3))
+
+
 def check_shift(ctx, kind, c, desc, sdesc):
+    if recur.is_nominal(sdesc):
+        return check_nominal_shift(ctx, kind, c, desc, sdesc)
     case = lambda: {"kind": "shift", "mode": kind, "r": desc, "shift": sdesc}  # noqa: E731
     fmt, n, ddesc = desc["fmt"], desc["n"], desc["dur"]
     nominal, zero = recur.is_nominal(ddesc), recur.is_zero(ddesc)
@@ -301,6 +345,9 @@ def run_unit(unit, ctx):
                     main = SHIFTS if ctx.tier != "quick" else SHIFTS[:3] + SHIFTS[5:6]
                     for sd in main if (n in (None, 1, 3)) else SHIFTS[:1]:
                         check_shift(ctx, kind, c, desc, sd)
+                    if n in (None, 1, 3) and anchor["t"][1] != 24:
+                        for sd in NOMINAL_SHIFTS:
+                            check_shift(ctx, kind, c, desc, sd)
                     check_text(ctx, kind, c, desc)
     else:
         if anchor["t"][0] != "hms":
